@@ -338,6 +338,7 @@ func (l *lawCtx) grammarLaw() {
 		l.c.Inconclusive("regex-model-step-budget")
 		return
 	}
+	l.c.Sample("re:find vs backtracking model", map[string]any{"pattern": mon.Q(p), "text": mon.Q(t), "model_matches": len(want)})
 	ms, ok := l.find(p, t, nil)
 	if !ok {
 		return
